@@ -1,7 +1,14 @@
 #!/usr/bin/env python3
-"""Rewrite the last column of the §A.4 table of tools/asbuilt.md (quick-tier paths and wall time) from
+"""Rewrite the harness column (from checks.json) and the last column of the §A.4 table of tools/asbuilt.md (quick-tier paths and wall time) from
 the evidence files of the last quick run on the clean tree."""
 import json, re
+CH=json.load(open('/verif/checks.json'))
+def harness_list(pid):
+    names=[]
+    for h in CH[pid]['harnesses']:
+        fn=h['fn']; short=fn[len('VH_'+pid+'_'):] if fn.startswith('VH_'+pid+'_') else fn[3:].replace('_','.',1)
+        if short not in names: names.append(short)
+    return ', '.join(names)
 p='/verif/tools/asbuilt.md'; s=open(p).read()
 def fmt(n):
     return ('%.1f k'%(n/1000)) if n>=1000 else str(n)
@@ -14,8 +21,9 @@ for line in s.split('\n'):
             e=json.load(open('/verif/evidence/%s.json'%pid))
             if e['tier']=='quick':
                 cells=line.split('|')
+                cells[2]=' '+harness_list(pid)+' '
                 nh=len(e['coverage'].get('harnesses',[]))
-                cells[-2]=' %d harness runs → %s paths, %s solver queries, %.0f s '%(nh, fmt(e['coverage']['states']), fmt(e['coverage'].get('queries',0)), e['wall_s'])
+                cells[-2]=' %d harness runs → %s paths, %s solver queries, %.0f s '%(nh, fmt(e['coverage']['states']), fmt(e['coverage'].get('queries',{}).get('total',0)), e['wall_s'])
                 line='|'.join(cells)
         except Exception as ex:
             pass
